@@ -22,13 +22,19 @@ META = {
         '[-1 .. bound+1]^k is accessed at BASIC level (in-bounds: own value; otherwise error 9, or 5 when negative). '
         'Random shapes with 1-4 dimensions and bounds 0-30 (all tuples of arrays up to 4000 elements are written and read; '
         'larger arrays: all corners, edge neighbours and 2000 random tuples at BASIC level plus a full dump through the API), '
-        'all four element types, and DIM / ERASE / implicit-DIM histories over several arrays with a dictionary model.'),
+        'all four element types, and DIM / ERASE / implicit-DIM histories over several arrays with a dictionary model. '
+        'Assignments whose right-hand side itself raises an error (SQR(-1), LOG(0), type mismatch, overflow, string too '
+        'long) are mixed in everywhere: with a bad subscript the subscript error must still be reported (the element '
+        'is located before the value is computed), in bounds the right-hand side error is reported and nothing changes, '
+        'and a first use of an undeclared array still dimensions it (dump shape and Duplicate Definition on DIM).'),
     'level_note': (
         'Trusted: the harness, get_variable/set_variable for whole-array dumps (C43) - every shape is additionally '
         'read and written through BASIC statements. Not pinned by the statement and therefore not generated or accepted as a '
         'set: a tuple that is both negative and otherwise out of range/wrong arity may give 5 or 9; subscripts beyond '
         '32767, fractional subscripts, DIM with a bound below the base, ERASE of an unknown array, OPTION BASE after '
-        'an array exists, and the state of an array whose implicit creation happened in a failing access. '
+        'an array exists, and whether an undeclared array exists after a first use whose SUBSCRIPT was out of range '
+        '(a first use with an in-range subscript and a failing right-hand side is pinned: the array exists). '
+        'FOR counters cannot be array elements and READ/INPUT targets have no failing right-hand side; not generated. '
         'The exhaustive space cycles the four element types over the shapes instead of crossing them.'),
     'rule': ('case = (shape, option base, element type, subscript tuple, access kind) for element accesses, '
              '(history id, step) for history steps; distinct by that tuple; non-trivial = every access whose tuple lies in '
@@ -41,7 +47,9 @@ META = {
         'quick': 'all shapes k=1 (8 bounds), k=2 (5x5), k=3 (4x4x4), k=4 (2^4) x OPTION BASE unset/0/1, every subscript tuple in [-1..bound+1]^k read (and failing ones also written) at BASIC level',
         'thorough': 'same finite space as quick (fully enumerated); random shapes on top'},
     'require_counters': {'any': ['err9_bounds_seen', 'err9_arity_seen', 'err5_negative_seen', 'err10_redim_seen',
-                                 'erase_then_dim_seen', 'implicit_dim_seen', 'option_base1_seen']},
+                                 'erase_then_dim_seen', 'implicit_dim_seen', 'option_base1_seen',
+                                 'failing_rhs_with_bad_subscript_seen', 'failing_rhs_first_use_seen',
+                                 'failing_rhs_in_bounds_seen']},
     'timeout': {'quick': 900, 'thorough': 7200},
 }
 
@@ -259,13 +267,33 @@ def bad_tuples(bounds, lo, rng=None):
     return out
 
 
-def failing_access(ctx, name, sigil, t, codes, cls, write, case):
+BAD_RHS_NUM = [(b'SQR(-1)', 5), (b'LOG(0)', 5), (b'"x"', 13), (b'CINT(1E10)', 6)]
+BAD_RHS_STR = [(b'1', 13), (b'CHR$(256)', 5), (b'STRING$(200,"a")+STRING$(100,"b")', 15)]
+
+
+def bad_rhs(sigil, n, avoid=()):
+    """A right-hand side that itself raises an error (text, code), its code not in avoid."""
+    pool = [x for x in (BAD_RHS_STR if sigil == '$' else BAD_RHS_NUM) if x[1] not in avoid]
+    return pool[n % len(pool)]
+
+
+def failing_access(ctx, name, sigil, t, codes, cls, write, case, rhs=None, stored=False):
+    """rhs=(text, code): the assigned expression fails as well - the element is located (and its
+    subscripts checked) before the value is computed, so the subscript error must still be reported."""
     nm = name.encode() + sigil.encode()
-    if write:
+    if write and rhs is not None:
+        stmt = nm + sub(t) + b'=' + rhs[0]
+        cls = cls + '-with-failing-right-hand-side'
+        ctx.res.count('failing_rhs_with_bad_subscript_seen')
+    elif write:
         stmt = nm + sub(t) + b'=' + lit(sigil, unique(sigil, (9, 9), (99, 99), 0, 4000))
     else:
         stmt = b'R0' + sigil.encode() + b'=' + nm + sub(t)
-    code = ctx.ex(stmt, case)
+    if stored:
+        ctx.box.ex(b'10 ' + stmt + b':END')   # storing a line clears nothing here: callers use it before DIM only
+        code = ctx.ex(b'GOTO 10', case)
+    else:
+        code = ctx.ex(stmt, case)
     if code is None:
         return
     if code == 9:
@@ -275,6 +303,21 @@ def failing_access(ctx, name, sigil, t, codes, cls, write, case):
     if code not in codes:
         ctx.res.violation('%s-subscript:%s:error-class' % (cls, 'write' if write else 'read'),
                           '%r -> error %d, expected %r' % (stmt, code, list(codes)), case)
+
+
+def failing_rhs_in_bounds(ctx, name, sigil, t, n, case, first_use=False):
+    """In-bounds (or first-use) assignment whose right-hand side fails: that error is reported, no element
+    changes (checked by the caller's dump), and a first use still dimensions the array."""
+    text, want = bad_rhs(sigil, n)
+    stmt = name.encode() + sigil.encode() + sub(t) + b'=' + text
+    code = ctx.ex(stmt, case)
+    if code is None:
+        return None
+    ctx.res.count('failing_rhs_first_use_seen' if first_use else 'failing_rhs_in_bounds_seen')
+    if code != want:
+        ctx.res.violation('failing-right-hand-side:%s:error-class' % ('first-use' if first_use else 'in-bounds'),
+                          '%r -> error %d, expected %d' % (stmt, code, want), case)
+    return stmt
 
 
 # ---------------------------------------------------------------------------------------------
@@ -344,11 +387,17 @@ def run_exhaustive(spec, res):
                         break
             for n, (t, codes, cls) in enumerate(bad):
                 res.case(('x', base, sigil, bounds, t, 'e'))
-                failing_access(ctx, 'A', sigil, t, codes, cls, write=(n % 2 == 1), case=dict(case, tuple=list(t)))
+                failing_access(ctx, 'A', sigil, t, codes, cls, write=(n % 2 == 1), case=dict(case, tuple=list(t)),
+                               rhs=(bad_rhs(sigil, n, avoid=codes) if n % 4 == 3 else None))
             for t, codes, cls in bad_tuples(bounds, lo):
                 if cls == 'arity':
                     res.case(('x', base, sigil, bounds, t, 'a'))
                     failing_access(ctx, 'A', sigil, t, codes, cls, write=(len(t) % 2 == 0), case=dict(case, tuple=list(t)))
+                    failing_access(ctx, 'A', sigil, t, codes, cls, write=True, case=dict(case, tuple=list(t)),
+                                   rhs=bad_rhs(sigil, len(t), avoid=codes))
+            # in-bounds assignments whose right-hand side fails: its error, nothing changes
+            for n, t in enumerate(inb[:3]):
+                failing_rhs_in_bounds(ctx, 'A', sigil, t, n + nshape, dict(case, tuple=list(t)))
             # nothing changed by the failing accesses
             check_dump(ctx, 'A', sigil, bounds, lo, uf, 'failing-access-changed-element', 'after the failing accesses', case)
             g = ctx.dump('G%')
@@ -429,7 +478,55 @@ def run_directed(spec, res):
                                'after ERASE and DIM with new bounds', case)
                     for t, codes, cls in bad_tuples(nb, lo):
                         failing_access(ctx, 'B', sigil, t, codes, cls, write=True, case=dict(case, tuple=list(t)))
-        res.sample({'kind': 'directed', 'what': 'implicit DIM (bounds 10) / re-DIM / ERASE+DIM for 3 base settings x 4 types x 1-3 dims'})
+        # first use / bad subscript in an assignment whose right-hand side fails (direct and stored line)
+        n = 0
+        for base in ('unset', '0', '1'):
+            lo = lo_of(base)
+            for sigil in SIGILS:
+                for k in (1, 2):
+                    for stored in (False, True):
+                        n += 1
+                        case = {'directed': 'failing-rhs', 'base': base, 'type': sigil, 'dims': k, 'stored_line': stored}
+                        res.case(('failing-rhs', base, sigil, k, stored))
+                        nm = b'B' + sigil.encode()
+                        first = tuple([3, 10][:k])
+                        text, want = bad_rhs(sigil, n)
+                        ctx.fresh(base)
+                        if stored:
+                            ctx.box.ex(b'10 ' + nm + sub(first) + b'=' + text + b':END')
+                            if base in ('0', '1'):
+                                ctx.ex(b'OPTION BASE ' + base.encode(), case)
+                            code = ctx.ex(b'GOTO 10', case)
+                        else:
+                            code = ctx.ex(nm + sub(first) + b'=' + text, case)
+                        if code is None:
+                            continue
+                        res.count('failing_rhs_first_use_seen')
+                        if code != want:
+                            res.violation('failing-right-hand-side:first-use:error-class',
+                                          '%s%s=%s on an undeclared array -> error %d, expected %d' % (
+                                              nm.decode(), sub(first).decode(), text.decode(), code, want), case)
+                        # the first use dimensioned the array although the assignment did not complete
+                        check_dump(ctx, 'B', sigil, (10,) * k, lo, lambda t: default(sigil),
+                                   'implicit-dim:first-use-with-failing-right-hand-side-did-not-dimension',
+                                   'after %s%s=%s' % (nm.decode(), sub(first).decode(), text.decode()), case)
+                        code = ctx.ex(b'DIM ' + nm + sub((20,) * k), case)
+                        if code == 10:
+                            res.count('err10_redim_seen')
+                        elif code is not None:
+                            res.violation('redim:after-first-use-with-failing-right-hand-side:error-class',
+                                          'DIM after %s%s=%s -> error %d, expected 10' % (
+                                              nm.decode(), sub(first).decode(), text.decode(), code), case)
+                        # bad subscripts with a failing right-hand side on the (now existing) array: subscript error wins
+                        for j, (t, codes, cls) in enumerate(bad_tuples((10,) * k, lo)):
+                            failing_access(ctx, 'B', sigil, t, codes, cls, write=True, case=dict(case, tuple=list(t)),
+                                           rhs=bad_rhs(sigil, j + n, avoid=codes))
+                        # undeclared array, subscript beyond the default bound, failing right-hand side: error 9
+                        # (whether the array exists afterwards is not pinned)
+                        t = (11,) + (lo,) * (k - 1)
+                        failing_access(ctx, 'D', sigil, t, (9,), 'bounds-of-undeclared-array', write=True,
+                                       case=dict(case, tuple=list(t)), rhs=bad_rhs(sigil, n, avoid=(9,)))
+        res.sample({'kind': 'directed', 'what': 'implicit DIM (bounds 10) / re-DIM / ERASE+DIM / failing right-hand sides for 3 base settings x 4 types x 1-3 dims'})
     finally:
         ctx.close()
 
@@ -563,7 +660,10 @@ def run_shapes(spec, rng, res):
             rng.shuffle(bad)
             for i, (t, codes, cls) in enumerate(bad[:10]):
                 res.case(('s', base, sigil, bounds, t, 'e'))
-                failing_access(ctx, 'A', sigil, t, codes, cls, write=(i % 2 == 0), case=dict(case, tuple=list(t)))
+                failing_access(ctx, 'A', sigil, t, codes, cls, write=(i % 2 == 0), case=dict(case, tuple=list(t)),
+                               rhs=(bad_rhs(sigil, rng.randrange(12), avoid=codes) if i % 4 == 2 else None))
+            for t in rng.sample(ts, min(len(ts), 2)):
+                failing_rhs_in_bounds(ctx, 'A', sigil, t, rng.randrange(12), dict(case, tuple=list(t)))
             # redimensioning
             nb = tuple(rng.randint(lo, 6) for _ in range(rng.randint(1, 3)))
             code = ctx.ex(b'DIM ' + nm + sub(rng.choice((bounds, nb))), case)
@@ -669,19 +769,29 @@ def run_history(spec, rng, res):
                     else:
                         bounds = (10,) * rng.randint(1, 2)
                     t = tuple(rng.randint(lo, b) for b in bounds)
-                    v = unique(sigil, t, bounds, lo, salt=100 * (sno + 1))
-                    stmt = nm + sub(t) + b'=' + lit(sigil, v)
-                    steps.append(stmt)
-                    code = ctx.ex(stmt, case)
-                    if code is None:
-                        break
-                    if code:
-                        res.violation('in-bounds-write:error', '%r -> error %d (bounds %r base %s)' % (stmt, code, list(bounds), base), case)
-                        break
-                    if key not in model:
-                        model[key] = {'bounds': bounds, 'vals': {}}
-                        res.count('implicit_dim_seen')
-                    model[key]['vals'][t] = v
+                    if rng.random() < 0.25:
+                        # the right-hand side fails: its error; no element changes; a first use still dimensions
+                        stmt = failing_rhs_in_bounds(ctx, name, sigil, t, rng.randrange(12), case, first_use=key not in model)
+                        if stmt is None:
+                            break
+                        steps.append(stmt)
+                        if key not in model:
+                            model[key] = {'bounds': bounds, 'vals': {}}
+                            res.count('implicit_dim_seen')
+                    else:
+                        v = unique(sigil, t, bounds, lo, salt=100 * (sno + 1))
+                        stmt = nm + sub(t) + b'=' + lit(sigil, v)
+                        steps.append(stmt)
+                        code = ctx.ex(stmt, case)
+                        if code is None:
+                            break
+                        if code:
+                            res.violation('in-bounds-write:error', '%r -> error %d (bounds %r base %s)' % (stmt, code, list(bounds), base), case)
+                            break
+                        if key not in model:
+                            model[key] = {'bounds': bounds, 'vals': {}}
+                            res.count('implicit_dim_seen')
+                        model[key]['vals'][t] = v
                 elif key in model:
                     bounds = model[key]['bounds']
                     t, codes, cls = rng.choice(bad_tuples(bounds, lo, rng))
